@@ -2,7 +2,8 @@
 
 A case is a history: 2..5 concurrent flows of generated kinds (plain HTTP, WebSocket, TCP, UDP, DNS; small flowgen
 descriptors with distinct ids), each with a generated *valid* lifecycle script
-    http: request -> response | error | response,error | (stays open)
+    http: request -> response | error | response,error | (stays open), or error alone (failure while the request is
+          still being read: requestheaders -> error, Save never sees a request hook)
     ws:   request -> response(101, flow.websocket set as the proxy does) -> messages -> websocket_end | (stays open)
           or request -> error
     tcp/udp: start -> messages -> end | error | (stays open)          dns: dns_request -> dns_response | dns_error | (open)
@@ -10,8 +11,9 @@ and a list of operations interpreted against the real Save addon (real files in 
 model:  adv i (next lifecycle event of flow i: the flow object is updated the way the proxy core does before the hook —
 response/error/websocket/messages set — then the Save hook is called), filter j (save_stream_filter from a table of
 filters with obvious meaning), mark / comment (change what ~marked / ~comment match), file j (toggle save_stream_file:
-open "A", "+A", "B", "+B" — overwrite or append, optionally onto pre-existing content — or stop), done (shutdown; ends
-the history).  After EVERY operation both files are read back from disk and compared with the model:
+open "A", "+A", "B", "+B" — overwrite or append, optionally onto pre-existing content — or stop), rotate j (change
+save_stream_file directly to the other path while saving is on: saving continues, flows in flight stay pending and go to
+the file that is active when they complete or when saving stops), done (shutdown; ends the history).  After EVERY operation both files are read back from disk and compared with the model:
   * a completion event of a flow that matches the filter at that moment appended exactly one record holding the flow's
     state at that moment; nothing else changed;
   * start events, message events, filter/mark/comment changes and completions of non-matching flows write nothing;
@@ -43,7 +45,7 @@ TECHNIQUE = "Hypothesis op-sequence generation against the real Save addon + fil
 RULE = ("histories of 6-29 operations over 2-5 concurrent flows of mixed kinds; non-trivial = a filter change or a stop "
         "(file->None / done) happens while >=2 flows are in flight (started, not completed); distinct by history digest")
 ASSUMPTIONS = ["hooks are delivered in a valid per-flow order (as mitmproxy.eventsequence / the proxy layers do)",
-               "save_stream_file is only toggled between unset and a path (no direct path-to-path rotation), paths contain no strftime fields",
+               "paths contain no strftime fields; a change between \"A\" and \"+A\" (same path) is not generated",
                "done() is the last thing that happens to the addon (shutdown)"]
 LEVEL_TEXT = "exploration: sampled interleavings of lifecycle hooks, filter changes and stops; every step compared with a reference model"
 LEVEL_NOTE = "model written from the property statement; filter semantics for ~http/~tcp/~udp/~dns/~websocket/~marked/~comment/~s/~e re-implemented in the model"
@@ -71,7 +73,9 @@ FILTERS = [
 FILES = ["A", "+A", "B", "+B"]
 
 SCRIPTS = {
-    "http": [["start", "response"], ["start", "error"], ["start", "response", "error"], ["start"]],
+    # the last one: the exchange fails while the request is still being read (requestheaders -> error): Save never sees
+    # a `request` hook for it, its only hook is `error`
+    "http": [["start", "response"], ["start", "error"], ["start", "response", "error"], ["start"], ["error"]],
     "ws": [["start", "upgrade", "msg", "msg", "end"], ["start", "upgrade", "end"], ["start", "error"], ["start", "upgrade", "msg"]],
     "tcp": [["start", "msg", "end"], ["start", "error"], ["start", "msg", "msg", "end"], ["start", "msg"]],
     "udp": [["start", "msg", "end"], ["start", "error"], ["start", "msg", "msg", "end"], ["start", "msg"]],
@@ -91,12 +95,14 @@ COMPLETIONS = {("http", "response"), ("http", "error"), ("ws", "end"), ("ws", "e
 def strategy(ctx):
     pool = fg.Pool(ctx.shard_seed, n=24)
     kinds = ["http", "ws", "tcp", "udp", "dns"]
-    one = st.one_of([st.tuples(st.just(k), fg._BY_KIND[k](small=True, backup=False, pool=pool), st.integers(0, 3)).map(list) for k in kinds])
+    one = st.one_of([st.tuples(st.just(k), fg._BY_KIND[k](small=True, backup=False, pool=pool), st.integers(0, 4)).map(list) for k in kinds])
     nflows = st.lists(one, min_size=2, max_size=5)
     adv = st.tuples(st.just("adv"), st.integers(0, 9))
     flt = st.tuples(st.just("filter"), st.integers(0, len(FILTERS) - 1))
     op = st.one_of(adv, adv, adv, adv, adv, adv, adv, adv, flt, flt,
                    st.tuples(st.just("file"), st.integers(0, len(FILES) - 1)),
+                   st.tuples(st.just("rotate"), st.integers(0, len(FILES) - 1)),
+                   st.tuples(st.just("rotate"), st.integers(0, len(FILES) - 1)),
                    st.tuples(st.just("mark"), st.integers(0, 9), st.sampled_from(["", ":default:", "x"])),
                    st.tuples(st.just("comment"), st.integers(0, 9), st.sampled_from(["", "keep", "skip", "keep it"]))).map(list)
     tail = st.sampled_from([[], [], [["done"]], [["file", 0]]])
@@ -136,7 +142,7 @@ class Harness:
                 parts["messages"] = list(f.messages)
                 f.messages = []
             self.flows.append((f, parts))
-            self.m.append({"kind": kind, "script": list(SCRIPTS[kind][variant]), "pos": 0, "marked": f.marked,
+            self.m.append({"kind": kind, "script": list(SCRIPTS[kind][variant % len(SCRIPTS[kind])]), "pos": 0, "marked": f.marked,
                            "comment": f.comment, "upgraded": False, "has_response": False, "has_error": False})
         # ---- model of the addon
         self.opt_file = None      # current value of the option
@@ -180,9 +186,15 @@ class Harness:
             unordered = self.stop()
         else:
             name = spec.lstrip("+")
-            if not spec.startswith("+"):
-                self.files[name] = []
-            self.open = name
+            if self.open is not None and self.open != name:
+                # direct rotation to another file: saving does not stop, nothing is flushed to the old file, the flows
+                # in flight stay pending and will be written (on completion or at stop) to the file active then
+                if len(self.in_flight()) >= 1:
+                    self.ctx.nt(self.key, "rotate-with-%d-in-flight" % min(len(self.in_flight()), 4))
+            if self.open != name:
+                if not spec.startswith("+"):
+                    self.files[name] = []
+                self.open = name
         return unordered
 
     def stop(self):
@@ -272,6 +284,13 @@ class Harness:
             return None
         if k == "file":
             return self.set_file(None if self.opt_file is not None else FILES[op[1]])
+        if k == "rotate":
+            # path-to-path change without unsetting in between (always to the *other* path: "A" -> "+A" is the same
+            # path for the addon and changes nothing); opens the file if saving is off
+            spec = FILES[op[1]]
+            if self.open is not None and spec.lstrip("+") == self.open:
+                spec = spec.replace(self.open, "B" if self.open == "A" else "A")
+            return self.set_file(spec)
         if k == "done":
             self.sa.done()
             return self.stop()
